@@ -43,6 +43,20 @@ structure RawFacts where
   natives : List (String × String × List String × Bool)
   /-- how `==` compares (`reflect.DeepEqual` today) -/
   equalVia : String
+  /-- `pyList.Operator`, case Add, has a branch for a `pyFrozenList` operand (harness/extract/c18) -/
+  listAddAcceptsFrozen : Bool
+  /-- `type pyFrozenList struct { pyList }`: the wrapper gets every method it does not redefine from the list -/
+  frozenListEmbedsList : Bool
+  /-- the methods `pyFrozenList` defines itself -/
+  frozenListMethods : List String
+  /-- `interpretOps`: the comparison that decides "one more operator" vs. "the rest first", as `lhs op rhs` over
+      the indices of the operator list -/
+  opsCompare : String
+  /-- `interpretOps`: number of recursive calls on `ops[1:]` (3: one per branch) -/
+  opsRestCalls : Nat
+  /-- `interpretOps`: the last branch hands the evaluated rest back to `interpretOp(obj, …)`, which asks
+      `obj.IsTruthy()` again for `and` / `or` -/
+  opsRecheck : Bool
 
 def factsOf (r : RawFacts) : Facts where
   prec := precOf r.precTable r.precDefault
@@ -57,6 +71,7 @@ def factsOf (r : RawFacts) : Facts where
     match r.natives.find? (·.1 == name) with
     | some (_, _, asserted, unwraps) => unwraps || !asserted.contains "pyList"
     | none => false
+  addAcceptsFrozen := r.listAddAcceptsFrozen
 
 /-- The surface token of every operator the model knows, as the parser's `operators` map must have it. -/
 def expectedTokens : List (String × String) :=
